@@ -231,12 +231,16 @@ def afterAttach (σ : Sess) (o : Oid) : Sess :=
   let σ := setO σ o (fun ob => { ob with att := true })
   if (getO σ o).key.isSome then emit σ .x2s o else emit σ .t2p o
 
+/-- `if state not in self._new: self._new[state] = obj; state.insert_order = len(self._new)` -/
+def registerNew (σ : Sess) (o : Oid) : Sess :=
+  if σ.new.contains o then σ
+  else setO { σ with new := σ.new ++ [o] } o (fun ob => { ob with ins := σ.new.length + 1 })
+
 /-- `_save_impl` -/
 def saveImpl (σ : Sess) (o : Oid) : R :=
   if (getO σ o).key.isSome then fail σ .invalid else
   let (σ, toAttach) := beforeAttach σ o
-  let σ := if σ.new.contains o then σ
-           else setO { σ with new := σ.new ++ [o] } o (fun ob => { ob with ins := σ.new.length + 1 })
+  let σ := registerNew σ o
   ok (if toAttach then afterAttach σ o else σ)
 
 /-- `_update_impl(state, revert_deletion)` -/
@@ -276,7 +280,7 @@ def popTxnDeleted (σ : Sess) (o : Oid) : Sess :=
 
 /-- loop body of `_expunge_states` -/
 def expungeOne (σ : Sess) (o : Oid) : Sess :=
-  if σ.new.contains o then { σ with new := σ.new.erase o }
+  if σ.new.contains o then { σ with new := σ.new.filter (· != o) }   -- dict pop
   else if imContainsState σ o then
     let σ := imSafeDiscard σ o
     { σ with deleted := σ.deleted.erase o }
@@ -374,16 +378,21 @@ def dupIdent (σ : Sess) (os : List Oid) : Bool :=
   let ks := os.filterMap (fun o => identFromState (getO σ o))
   ks.eraseDups.length != ks.length
 
+/-- `_register_persistent` after the key loop: `_commit_all_states`, `_register_altered`, the
+    pending_to_persistent events, removal from `_new` -/
+def registerFinish (σ : Sess) (os : List Oid) : Sess :=
+  let σ := os.foldl (fun σ o => setO σ o commitAllObj) σ
+  let σ := os.foldl registerAlteredOne σ
+  let inNew := os.filter (fun o => σ.new.contains o)
+  let σ := inNew.foldl (fun σ o => emit σ .p2s o) σ
+  { σ with new := σ.new.filter (fun o => !inNew.contains o) }
+
 /-- `Session._register_persistent(states)` -/
 def registerPersistent (σ : Sess) (os : List Oid) : R :=
   let σ := markNondetIf (dupIdent σ os) σ
   -- an exception in the middle of the loop leaves a set-order dependent part registered
   (failNondet (decide (os.length > 1)) (registerKeys σ os)).bind fun σ =>
-  let σ := os.foldl (fun σ o => setO σ o commitAllObj) σ
-  let σ := os.foldl registerAlteredOne σ
-  let inNew := os.filter (fun o => σ.new.contains o)
-  let σ := inNew.foldl (fun σ o => emit σ .p2s o) σ
-  ok { σ with new := σ.new.filter (fun o => !inNew.contains o) }
+  ok (registerFinish σ os)
 
 /-! ### transaction snapshots (SessionTransaction) -/
 
@@ -614,6 +623,13 @@ def flushFailed (σ : Sess) : Sess :=
       | (σ, some _) => markNondetIf true σ
       | (σ, none) => updTxn σ (fun t => { t with rbexc := true })
 
+/-- the `try: flush_context.execute() ... except: transaction.rollback(_capture_exception=True)`
+    of `_flush` -/
+def flushCore (σ : Sess) (proc dels : List Oid) : R :=
+  match flushExecute σ proc dels with
+  | (σ, none) => ok σ
+  | (σ, some e) => fail (flushFailed σ) e
+
 /-- `Session.flush()` -/
 def flush (σ : Sess) : R :=
   if isClean σ then ok σ else
@@ -624,10 +640,7 @@ def flush (σ : Sess) : R :=
   if (proc ++ dels).any (fun o => !(σ.new.contains o || imContainsState σ o)) then fail σ .assertion else
   if proc.isEmpty && dels.isEmpty then ok σ else
   -- `self._autobegin_t()._begin()`: declared ACTIVE-only
-  (requireActive σ).bind fun σ =>
-  match flushExecute σ proc dels with
-  | (σ, none) => ok σ
-  | (σ, some e) => fail (flushFailed σ) e
+  (requireActive σ).bind fun σ => flushCore σ proc dels
 
 /-- `Session._autoflush()` (autoflush=True) -/
 def autoflush (σ : Sess) : R := flush σ
